@@ -31,12 +31,14 @@ as soon as the aborted call has returned, and its promise stays empty.  (Until c
 code skipped coroutines in the call after an aborted one: D31, corpus/C08/raise_mid_order.scn; that
 is reported as `skipped-after-raise`, an ordinary violation.)
 """
-from harness.models.coro import parse, enc
+from harness.models.coro import parse, enc, split_instances, dec
 
 
 class Spec:
     def __init__(self, lines, obs):
         self.scripts, self.ops = parse(lines)
+        # the processor may live in a World: started through the decorator, replaced, removed
+        self.has_proc = True
         n = len(self.scripts)
         self.n = n
         self.mode = [None] * n
@@ -107,6 +109,18 @@ class Spec:
         if h in self.prev_order:
             self.prev_order.remove(h)
         return 'ok'
+
+    def new_processor(self, present):
+        """The world's CoroutineProcessor is replaced by a fresh one (or removed).  Whatever the old
+        one was running is no longer in *the world's* processor: a coroutine started from now on -
+        directly or through the decorator - lives in the new one, and world.process drives that one
+        only.  The generator objects and the promises handed out so far are the program's."""
+        for g in range(self.n):
+            self.mode[g] = None
+        self.linger.clear()
+        self.prev_order = []
+        self.after_abort = False
+        self.has_proc = present
 
     # ------------------------------------------------------------------ running bodies
     def eligible(self, g):
@@ -277,7 +291,16 @@ class Spec:
                 self.obs[sum(len(c) for c in self.chunks):]
             kind = t[0]
             if kind == 'process':
-                r = self.process(int(t[1]), chunk, nxt)
+                # world.process() of a world without a coroutine processor runs no coroutine
+                r = self.process(int(dec(t[1])), chunk, nxt) if self.has_proc else 'ok'
+            elif kind in ('replace', 'remove'):
+                self.new_processor(kind == 'replace')
+                r = 'ok'
+            elif kind in ('dstart', 'dstart0'):
+                # the decorator starts the coroutine in the world's CURRENT coroutine processor
+                r = self.start(int(t[1])) if self.has_proc else 'raised AssertionError'
+            elif not self.has_proc and kind != 'value':
+                r = 'raised AttributeError'
             elif kind == 'start':
                 r = self.start(int(t[1]))
             elif kind == 'kill':
@@ -313,10 +336,36 @@ def expected(lines, obs):
     return sp.run(), sp.reasons
 
 
+def split_obs(obs):
+    """observations per instance (marks removed), in the order of the stream"""
+    per = {}
+    for k, o in split_instances(obs):
+        per.setdefault(k, []).append(o)
+    return per
+
+
 def compare(pid, lines, obs, project):
-    """First disagreement between the required and the observed stream -> [violation]."""
+    """Every instance (`@k`) is judged on its own, exactly like a scenario with one processor:
+    whatever the other instances do must not show in its observations."""
     if obs == ['hang']:
         return [{'sig': f'{pid}:hang', 'what': 'the implementation did not return'}]
+    marked = split_instances(lines)
+    ids = [0] + sorted({k for k, _ in marked} - {0})
+    per_obs = split_obs(obs)
+    out = []
+    for k in ids:
+        vs = compare_one(pid, [ln for j, ln in marked if j == k], per_obs.get(k, []), project)
+        for v in vs:
+            if len(ids) > 1:
+                v = dict(v, what=f'instance {k} (of {len(ids)} processors living side by side): ' + v['what'])
+            out.append(v)
+        if out:
+            break
+    return out
+
+
+def compare_one(pid, lines, obs, project):
+    """First disagreement between the required and the observed stream -> [violation]."""
     exp, reasons = expected(lines, obs)
     found = []
     keep_e = [(k, o) for k, o in enumerate(exp) if project([o])]
